@@ -15,6 +15,7 @@
     and the real open / load / loads / save / dump / dumps, and compares.
 """
 from __future__ import annotations
+import copy
 import io
 import json
 import os
@@ -45,7 +46,8 @@ WORKERS = 16
 
 def consts(**kw):
     c = {"Scenarios": {"validate"}, "Mode": "all", "ErrCounts": ERR_COUNTS, "MaxFiles": 3, "StrIds": {1},
-         "Layouts": "one", "SaveCodec": "utf8", "Newlines": "verbatim", "ExitRule": "contract"}
+         "Layouts": "one", "SaveCodec": "utf8", "Newlines": "verbatim", "ExitRule": "contract",
+         "RootSchema": "own", "DumpOptions": "same"}
     c.update(kw)
     return c
 
@@ -59,7 +61,7 @@ def tlc_jobs(quick, seed, n_api):
                                          invariants=["Emit"] + INV_VALIDATE + INV_CLI), workers=1, timeout=1200),
         # (M) api scenario, everything enumerated
         "c20_api_mc": dict(cfg=tlc.cfg_text(constants=consts(Scenarios={"api"}, StrIds={1} if quick else {1, 2},
-                                                             Layouts="some" if quick else "all"),
+                                                             Layouts="some"),
                                             invariants=INV_API), workers=4 if quick else 16, timeout=3000),
         # (G) api behaviours: random kinds for four string ids, random layout, free call order
         "c20_api_walks": dict(cfg=tlc.cfg_text(constants=consts(Scenarios={"api"}, Mode="walk", StrIds={1, 2, 3, 4}),
@@ -78,6 +80,8 @@ NEGATIVES = [
     ("skip_unparsed", {"ExitRule": "skip-unparsed"}, "validate"),
     ("universal_newlines", {"Newlines": "universal"}, "api"),
     ("latin1_save", {"SaveCodec": "latin1"}, "api"),
+    ("map_schema_for_every_root", {"RootSchema": "map"}, "validate"),
+    ("dump_mixes_options", {"DumpOptions": "sc-from-av", "Layouts": "some"}, "api"),
 ]
 
 
@@ -181,7 +185,32 @@ def cli(args, cwd, timeout=300):
 
 
 # ------------------------------------------------------------------------------------ validate
-def doc_with_errors(kind, n):
+PARTIAL = {   # root type -> (valid text, text with exactly one validation message)
+    "layer": ('LAYER\n  NAME "roads"\n  TYPE LINE\n  STATUS ON\n  CLASS\n    NAME "all"\n    STYLE\n      COLOR 0 0 0\n    END\n  END\nEND\n',
+              'LAYER\n  NAME "roads"\n  TYPE foo\nEND\n'),
+    "class": ('CLASS\n  NAME "c"\n  STYLE\n    COLOR 0 0 0\n  END\nEND\n', 'CLASS\n  NAME "c"\n  STATUS maybe\nEND\n'),
+    "web": ('WEB\n  METADATA\n    "wms_title" "x"\n  END\nEND\n', 'WEB\n  IMAGEPATH "/tmp/"\n  MAXSCALEDENOM foo\nEND\n'),
+    "style": ('STYLE\n  COLOR 1 2 3\n  WIDTH 2\nEND\n', 'STYLE\n  COLOR 1 2 3\n  LINECAP foo\nEND\n'),
+}
+MULTIROOT = {0: 'LAYER\n  NAME "a"\n  TYPE POINT\nEND\nLAYER\n  NAME "b"\n  TYPE POLYGON\nEND\n',
+             2: 'LAYER\n  NAME "a"\n  TYPE foo\nEND\nLAYER\n  NAME "b"\n  TYPE bar\nEND\n'}
+
+
+def kind_label(kind):
+    if kind["k"] == "invalid":
+        return "invalid(%d)" % kind["n"]
+    if kind["k"] == "partial":
+        return "%s-root(%d)" % (kind["root"], kind["n"])
+    if kind["k"] == "multiroot":
+        return "two-layer-roots(%d)" % kind["n"]
+    return kind["k"]
+
+
+def doc_with_errors(kind, n, full=None):
+    if kind == "partial":
+        return PARTIAL[full["root"]][n]
+    if kind == "multiroot":
+        return MULTIROOT[n]
     L = ["MAP", '  NAME "c20"', "  EXTENT 0 0 10 10"]
     if kind == "valid":
         L += ["  LAYER", '    NAME "ok"', "    TYPE POINT", "  END"]
@@ -214,8 +243,8 @@ def fixture_text(kind, nerr, rng):
             else:
                 raise common.MachineryFailure("fixture meant to be unparseable parses: %r" % text)
         return text
-    text = doc_with_errors(kind["k"], kind["n"])
-    key = (kind["k"], kind["n"])
+    text = doc_with_errors(kind["k"], kind["n"], kind)
+    key = (kind["k"], kind["n"], kind.get("root"))
     if key not in _fixture_ok:
         d = mappyfile.loads(text)
         for v, f in VERSIONS.items():
@@ -248,7 +277,7 @@ def validate_case(h, root, idx, seed):
     kinds = [k["k"] for k in files["kinds"]]
     finds = []
     parsed_sum = post["msgs"]
-    what_cfg = "validate %s (files: %s)" % (" ".join(args[1:]), ", ".join("%s(%d)" % (k["k"], k["n"]) if k["k"] == "invalid" else k["k"] for k in files["kinds"]))
+    what_cfg = "validate %s (files: %s)" % (" ".join(args[1:]), ", ".join(kind_label(k) for k in files["kinds"]))
     # exit status against the rule of the spec
     if post["zero"] and rc != 0:
         finds.append(("C20|exit|all-good->nonzero", "%s: exit status %d, every file parsed and validated" % (what_cfg, rc), case))
@@ -266,41 +295,45 @@ def validate_case(h, root, idx, seed):
         else:
             sig = "C20|exit|count-differs"
         finds.append((sig, "%s: exit status %d, the number of problems is %d" % (what_cfg, rc, post["exact"]), case))
-    # stdout: one line per message, one line per other file, the summary line
+    # stdout: one line per message (the API's messages), one line per other file, the summary line
     lines = out.splitlines()
-    if len(lines) != post["lines"]:
-        finds.append(("C20|stdout|line-count", "%s: %d lines on stdout, expected %d" % (what_cfg, len(lines), post["lines"]), case))
-    else:
-        m = re.match(r"^(\d+) file\(s\) validated \((\d+) successfully\)$", lines[-1]) if lines else None
-        if not m or (int(m.group(1)), int(m.group(2))) != (post["total"], post["okcount"]):
-            finds.append(("C20|stdout|summary", "%s: summary line %r, expected %d file(s), %d successfully" % (
-                what_cfg, lines[-1] if lines else "", post["total"], post["okcount"]), case))
-        seen = []
-        per = {fn: {"messages": 0, "ok": 0, "parsefail": 0, "other": 0} for fn in names}
-        for ln in lines[:-1]:
-            fn = ln.split(" ", 1)[0]
-            if fn not in per:
-                finds.append(("C20|stdout|unattributed-line", "%s: line %r names no file" % (what_cfg, ln[:80]), case))
-                break
-            if not seen or seen[-1] != fn:
-                seen.append(fn)
-            if ln.startswith(fn + " (Line: "):
-                per[fn]["messages"] += 1
-            elif "validated successfully" in ln:
-                per[fn]["ok"] += 1
-            elif "failed to parse" in ln:
-                per[fn]["parsefail"] += 1
-            else:
-                per[fn]["other"] += 1
+    n0 = len(finds)
+    seen = []
+    per = {fn: {"messages": 0, "ok": 0, "parsefail": 0, "other": 0} for fn in names}
+    attributed = True
+    for ln in (lines[:-1] if lines else []):
+        fn = ln.split(" ", 1)[0]
+        if fn not in per:
+            finds.append(("C20|stdout|unattributed-line", "%s: line %r names no file" % (what_cfg, ln[:80]), case))
+            attributed = False
+            break
+        if not seen or seen[-1] != fn:
+            seen.append(fn)
+        if ln.startswith(fn + " (Line: "):
+            per[fn]["messages"] += 1
+        elif "validated successfully" in ln:
+            per[fn]["ok"] += 1
+        elif "failed to parse" in ln:
+            per[fn]["parsefail"] += 1
         else:
-            for fn, pf in zip(names, post["perfile"]):
-                want = {"messages": 0, "ok": 0, "parsefail": 0, "other": 0}
-                want[pf["r"]] = pf["n"]
-                if per[fn] != want:
-                    finds.append(("C20|stdout|per-file|%s" % pf["r"], "%s: lines for %s are %s, expected %s" % (what_cfg, fn, per[fn], want), case))
-                    break
-            if act["how"] == "list" and seen != names:
-                finds.append(("C20|stdout|file-order", "%s: files reported in order %s" % (what_cfg, seen), case))
+            per[fn]["other"] += 1
+    if attributed:
+        for fn, pf, kind in zip(names, post["perfile"], files["kinds"]):
+            want = {"messages": 0, "ok": 0, "parsefail": 0, "other": 0}
+            want[pf["r"]] = pf["n"]
+            if per[fn] != want:
+                root = kind.get("root", "layers" if kind["k"] == "multiroot" else "map")
+                finds.append(("C20|stdout|per-file|%s|%s-root" % (pf["r"], root),
+                              "%s: lines for %s (%s) are %s, validate() of the API gives %s" % (what_cfg, fn, kind_label(kind), per[fn], want), case))
+                break
+        if act["how"] == "list" and seen != [fn for fn in names if fn in seen]:
+            finds.append(("C20|stdout|file-order", "%s: files reported in order %s" % (what_cfg, seen), case))
+    m = re.match(r"^(\d+) file\(s\) validated \((\d+) successfully\)$", lines[-1]) if lines else None
+    if not m or (int(m.group(1)), int(m.group(2))) != (post["total"], post["okcount"]):
+        finds.append(("C20|stdout|summary", "%s: summary line %r, expected %d file(s), %d successfully" % (
+            what_cfg, lines[-1] if lines else "", post["total"], post["okcount"]), case))
+    if len(lines) != post["lines"] and len(finds) == n0:
+        finds.append(("C20|stdout|line-count", "%s: %d lines on stdout, expected %d" % (what_cfg, len(lines), post["lines"]), case))
     return finds, {"rc": rc, "lines": len(lines)}
 
 
@@ -308,9 +341,10 @@ def validate_label(h):
     post = h[1]["post"]
     kinds = [k["k"] for k in h[0]["kinds"]]
     ps = post["msgs"]
-    return "%s|%s|%s" % ("U" if "unparseable" in kinds else "-",
-                         "zero" if post["zero"] else ("fits" if post["exact"] else "over"),
-                         "wrap" if ps and ps % 256 == 0 else "-")
+    part = "P" if "partial" in kinds else ("M" if "multiroot" in kinds else "-")
+    return "%s%s|%s|%s" % ("U" if "unparseable" in kinds else "-", part,
+                           "zero" if post["zero"] else ("fits" if post["exact"] else "over"),
+                           "wrap" if ps and ps % 256 == 0 else "-")
 
 
 def select_validate(cfgs, n, rng):
@@ -388,7 +422,8 @@ def format_args(a):
 
 def api_lay(lay):
     return {"indent": lay["indent"], "spacer": API_SPACER[lay["spacer"]], "quote": API_QUOTE[lay["quote"]],
-            "newlinechar": API_NL[lay["nl"]]}
+            "newlinechar": API_NL[lay["nl"]], "end_comment": lay["ec"], "align_values": lay["av"],
+            "separate_complex_types": lay["sc"]}
 
 
 def api_format(src, dst, call):
@@ -565,7 +600,7 @@ def api_case(job):
     import mappyfile
     j, walk, fe, seed, root = job
     finds = []
-    info = {"calls": 0, "skipped": None, "kinds": fe[0]["kinds"]}
+    info = {"calls": 0, "skipped": None, "kinds": fe[0]["kinds"], "order_sensitive": False, "one_of_av_sc": False}
     rng = random.Random("%s-a%s" % (seed, j))
     conc = concretise.Concretiser(seed * 1000 + j)
     gen = fe[0]
@@ -586,7 +621,7 @@ def api_case(job):
     pt, ps, pd = (os.path.join(d, n) for n in ("t.map", "s.map", "d.map"))
     case = {"scenario": "api", "j": j, "seed": seed, "walk": walk, "hist": fe, "text": text}
     kw = api_lay(gen["lay"])
-    state = {"mem": None, "s_ref": None, "ref_s": None}
+    state = {"mem": None, "s_ref": None, "ref_s": None, "refs": {}}
 
     def check_read(op, of, post, fn):
         """a reader must return the dictionary the string API returns for the same characters, with
@@ -624,9 +659,21 @@ def api_case(job):
                 op, list(df[0]), df[1], df[2], df[3]), case))
         return got_d
 
+    def fresh():
+        """every writer prints its own copy of the dictionary loads returned (the printer may reorder
+        the dictionary it is handed, see Write in spec/Frontend.tla)"""
+        return copy.deepcopy(state["mem"])
+
+    def reference(lay):
+        """dumps(d, options): the characters the spec attaches to a write with this layout"""
+        key = json.dumps(lay, sort_keys=True)
+        if key not in state["refs"]:
+            state["refs"][key] = mappyfile.dumps(fresh(), **api_lay(lay))
+        return state["refs"][key]
+
     def check_written(op, post, data, is_bytes):
         info["calls"] += 1
-        ref = state["s_ref"]
+        ref = reference(post["lay"])
         if is_bytes:
             try:
                 t = data.decode("utf-8")
@@ -648,6 +695,9 @@ def api_case(job):
             if runs(sval[i]) != post["strs"][i - 1] or sval[i] not in t:
                 finds.append(("C20|write|%s|string|%s" % (op, gen["kinds"][i - 1]), "%s: string value %r is not in the text verbatim" % (op, sval[i]), case))
                 return
+        if bool(re.search(r"(?m)^\s*END # \w+", t)) != post["lay"]["ec"]:
+            finds.append(("C20|write|%s|end-comment" % op, "%s: closing comments %s, end_comment=%s" % (
+                op, "missing" if post["lay"]["ec"] else "present", post["lay"]["ec"]), case))
 
     try:
         for act in fe:
@@ -667,7 +717,11 @@ def api_case(job):
                     break
                 state["mem"] = mem
                 try:
-                    state["s_ref"] = mappyfile.dumps(mem, **kw)
+                    state["s_ref"] = reference(gen["lay"])
+                    # can the formatting options make a difference on this document?  (coverage only)
+                    flip = dict(gen["lay"], sc=not gen["lay"]["sc"])
+                    info["order_sensitive"] = reference(flip) != state["s_ref"]
+                    info["one_of_av_sc"] = gen["lay"]["av"] != gen["lay"]["sc"]
                     back = project.project(mappyfile.loads(state["s_ref"], expand_includes=False))
                     state["ref_s"] = (back, leaves(back))
                     # the string API must itself keep the string values (C01); otherwise not a front-end matter
@@ -690,14 +744,14 @@ def api_case(job):
                             return mappyfile.load(fp, expand_includes=False)
                     check_read(a, act["of"], act["post"], rd)
             elif a == "dumps":
-                check_written(a, act["post"], mappyfile.dumps(state["mem"], **kw), False)
+                check_written(a, act["post"], mappyfile.dumps(fresh(), **kw), False)
             elif a == "dump-sio":
                 sio = io.StringIO()
-                mappyfile.dump(state["mem"], sio, **kw)
+                mappyfile.dump(fresh(), sio, **kw)
                 check_written(a, act["post"], sio.getvalue(), False)
             elif a == "save":
                 try:
-                    ret = mappyfile.save(state["mem"], ps, **kw)
+                    ret = mappyfile.save(fresh(), ps, **kw)
                 except Exception as ex:  # noqa: BLE001
                     finds.append(("C20|write|save|raised|%s" % type(ex).__name__, "save raised %s: %s" % (type(ex).__name__, str(ex)[:100]), case))
                     break
@@ -706,7 +760,7 @@ def api_case(job):
                 check_written(a, act["post"], read_bytes(ps), True)
             elif a == "dump-file":
                 with open(pd, "w", encoding="utf-8", newline="") as fp:
-                    mappyfile.dump(state["mem"], fp, **kw)
+                    mappyfile.dump(fresh(), fp, **kw)
                 check_written(a, act["post"], read_bytes(pd), True)
             else:
                 raise common.MachineryFailure("unknown action %s" % a)
@@ -782,7 +836,7 @@ def prepare_fixtures(val):
     seen = set()
     for h in val:
         for kind, nerr in zip(h[0]["kinds"], h[0]["nerr"]):
-            key = (kind["k"], kind["n"])
+            key = (kind["k"], kind["n"], kind.get("root"))
             if key in seen:
                 continue
             seen.add(key)
@@ -809,7 +863,7 @@ def run(tier):
         walks = fw.result()
     t_tlc = time.time() - t0
     val, fmt, sch = split_cli(res["c20_cli"].prints)
-    if len(val) < 4000 or len(fmt) < 1600 or len(sch) != 8:
+    if len(val) < 5000 or len(fmt) < 1600 or len(sch) != 8:
         raise common.MachineryFailure("TLC emitted %d/%d/%d configurations" % (len(val), len(fmt), len(sch)))
     fes = [h for h in res["c20_api_walks"].prints if isinstance(h, list)]
     if len(fes) < n_api * 0.9:
@@ -817,7 +871,7 @@ def run(tier):
     walks = [w for w in walks if has_strings(w)][:len(fes)]
     if len(walks) < len(fes) * 0.8:
         raise common.MachineryFailure("only %d generated documents carry string values" % len(walks))
-    vsel = select_validate(val, 60, rng) if quick else val
+    vsel = select_validate(val, 72, rng) if quick else val
     fsel = select_format(fmt, 24, rng) if quick else fmt
     prepare_fixtures(vsel)
     root = tempfile.mkdtemp(prefix="verif_c20_")
@@ -835,6 +889,7 @@ def run(tier):
     skipped = {}
     kinds_seen = set()
     calls = 0
+    opt_sensitive = 0
     def simplest_first(io):             # the first case reported under a signature should be a small one
         (kind, payload), _ = io
         return (0, 0) if kind == "api" else (1, len(payload[0][0].get("kinds", [])))
@@ -845,6 +900,7 @@ def run(tier):
                 continue
             calls += info["calls"]
             kinds_seen.update(info["present"])
+            opt_sensitive += bool(info["order_sensitive"] and info["one_of_av_sc"])
             ck.nontrivial([payload[1][:-1], payload[2][0]])
         else:
             ck.nontrivial(payload[0])
@@ -855,6 +911,8 @@ def run(tier):
         raise common.MachineryFailure("too many generated documents skipped: %s" % skipped)
     for k, n in skipped.items():
         ck.notes.append("%d generated documents left to other properties: %s" % (n, k))
+    if opt_sensitive < 5:
+        raise common.MachineryFailure("only %d documents on which separate_complex_types / align_values can tell writers apart" % opt_sensitive)
     missing = set(POOL) - kinds_seen
     if missing and not quick:
         raise common.MachineryFailure("string kinds never exercised: %s" % sorted(missing))
@@ -874,7 +932,8 @@ def run(tier):
         "validate_configurations": len(vsel), "validate_configurations_in_model": len(val), "validate_classes": labels,
         "format_configurations": len(fsel), "format_configurations_in_model": len(fmt),
         "schema_configurations": len(sch), "api_documents": n_docs - sum(skipped.values()), "api_calls": calls,
-        "string_kinds_exercised": sorted(kinds_seen), "negative_models_rejected": [n for n, _, _ in NEGATIVES]})
+        "string_kinds_exercised": sorted(kinds_seen),
+        "documents_where_one_of_align_separate_changes_the_text": opt_sensitive, "negative_models_rejected": [n for n, _, _ in NEGATIVES]})
 
 
 def replay(path):
